@@ -2,7 +2,7 @@
    Print Assumptions.  Costs are integers (dyadic floats scaled by 2^30; 2^-26 is 16). *)
 From Coq Require Import ZArith List Bool.
 From Centro Require Import Base.Sx Model.Lapjv Spec.Lapjv Proofs.LapjvCert Proofs.LapjvRefute Proofs.LapjvTrack
-  Proofs.LapjvPhases Proofs.LapjvAbstract Proofs.LapjvGrid Proofs.LapjvArr Proofs.LapjvRows Proofs.LapjvTrackCost Proofs.LapjvRt Proofs.LapjvHall Proofs.LapjvBsearch Proofs.LapjvTrackLink.
+  Proofs.LapjvPhases Proofs.LapjvAbstract Proofs.LapjvGrid Proofs.LapjvArr Proofs.LapjvRows Proofs.LapjvTrackCost Proofs.LapjvRt Proofs.LapjvHall Proofs.LapjvBsearch Proofs.LapjvTrackLink Proofs.LapjvArrExt Proofs.LapjvExtModel.
 Import ListNotations.
 Open Scope Z_scope.
 
@@ -224,7 +224,39 @@ Theorem C01_phases123_inv : forall n tri,
 Proof. exact phases123_inv. Qed.
 Print Assumptions C01_phases123_inv.
 
-(* Hall-type block (needed for the -inf price case of phase 3, which is NOT yet connected): m+1 rows whose
+(* Phases 1-3 WITHOUT the ">= 2 candidates per row" restriction, under has_PM.  InvE n rows x y v: lengths n; every
+   price is finite or -inf; every row assigned in y sits on a listed column which is minimal among its finite-priced
+   candidates, x[y[j]] = j; a row sitting on a -inf column lists only -inf columns; a -inf column is assigned.
+   That a free row always keeps a finite-priced candidate is the Hall argument (C01_hall_block via has_PM). *)
+Theorem C01_arr_passes_inv_ext : forall n tri,
+  (forall t, In t tri -> (t_i t < n)%nat /\ (t_j t < n)%nat) -> NoDup (map fst tri) -> has_PM n tri ->
+  forall epsr fuel k x y v ii x' y' v' ii', 0 <= epsr ->
+  InvE n (rows_of n tri) x y v -> Pending n y ii ->
+  arr_passes k fuel (Fin 0) (Fin epsr) n (rows_of n tri) (x, y, v, ii) = Some (x', y', v', ii') ->
+  InvE n (rows_of n tri) x' y' v' /\ Pending n y' ii'.
+Proof. exact arr_passes_inv_ext_model. Qed.
+Print Assumptions C01_arr_passes_inv_ext.
+
+Theorem C01_phases123_inv_ext : forall n tri,
+  (forall t, In t tri -> (t_i t < n)%nat /\ (t_j t < n)%nat) ->
+  NoDup (map fst tri) ->
+  (forall j, (j < n)%nat -> exists t, In t tri /\ t_j t = j) ->
+  has_PM n tri ->
+  forall epsr fuel k x y v ii, 0 <= epsr ->
+  let rows := rows_of n tri in
+  let mi := min_i n tri in
+  let x0 := x_init n mi in
+  let y0 := y_init n x0 in
+  let uv := reduction_transfer Fixed n rows (jflat_of rows) x0 (one_rows n mi) (repeat (Fin 0) n) (v_init n tri) in
+  match free_rows n mi with
+  | [] => Some (x0, y0, snd uv, free_rows n mi)
+  | _ => arr_passes k fuel (Fin 0) (Fin epsr) n rows (x0, y0, snd uv, free_rows n mi)
+  end = Some (x, y, v, ii) ->
+  InvE n rows x y v /\ Pending n y ii.
+Proof. exact phases123_inv_ext. Qed.
+Print Assumptions C01_phases123_inv_ext.
+
+(* Hall-type block (used by C01_arr_passes_inv_ext through Proofs.LapjvExtModel.noblock_model): m+1 rows whose
    candidates all lie within m columns exclude a perfect matching. *)
 Theorem C01_hall_block : forall n tri (L C : list nat),
   NoDup L -> (forall i, In i L -> (i < n)%nat) ->
